@@ -110,14 +110,24 @@ class Session:
         if self.driver_done and self.outstanding == 0:
             self.finished.set()
 
-    def spawn(self, c, ev, how, q):
+    def spawn(self, c, ev, how, q, ds=()):
+        """play a routine that records every wake-up and yields the numbers ds one after the other (a "walker":
+        it sleeps on the clock while the driver routine goes on changing it)"""
         pid = self.next_id
         self.next_id += 1
+        ds = list(ds)
 
         def child(inval):
-            self.events.append({'wake': pid, 'beats': enc(inval[1].beats), 'secs': enc(inval[1].seconds)})
-            self.outstanding -= 1
-            self.check_done()
+            try:
+                for d in ds + [None]:
+                    self.events.append({'wake': pid, 'beats': enc(inval[1].beats), 'secs': enc(inval[1].seconds)})
+                    if d is None:
+                        break
+                    self.events.append({'cyield': pid, 'd': d})
+                    yield dec(d)
+            finally:
+                self.outstanding -= 1
+                self.check_done()
         r = Routine(child)
         try:
             if how == 'play':
@@ -139,6 +149,8 @@ class Session:
         k = -1
         try:
             for step in case['steps']:
+                # the driver itself is a routine that yields numbers: where (beat, second) it woke up this time
+                self.events.append({'dwake': 1, 'beats': enc(c.beats), 'secs': enc(c.seconds)})
                 for act in step['acts']:
                     k += 1
                     ev = {'k': k, 'now': enc(c.seconds), 'elapsed': enc(M.elapsed_time())}
@@ -167,11 +179,12 @@ class Session:
                         elif kind == 'ask':
                             ev['result'] = enc(ask(c, act[1], act[2], ev))
                         elif kind in ('play', 'clock_play', 'play_next_bar'):
-                            self.spawn(c, ev, kind, act[1] if len(act) > 1 else None)
+                            self.spawn(c, ev, kind, act[1] if len(act) > 1 else None, act[2] if len(act) > 2 else ())
                     except (ValueError, ZeroDivisionError, clk.ClockError, TypeError) as e:
                         ev['raised'] = type(e).__name__
                         ev['state'] = state(c)
                 if step.get('yield') is not None:
+                    self.events.append({'dyield': step['yield']})
                     yield dec(step['yield'])
         finally:
             self.driver_done = True
